@@ -11,6 +11,8 @@ CHECKS = {
              note="Outside: inputs longer than the bound (quick 8, thorough 16 bytes); Base85 round-trip bytes for n>=2."),
  "C09": dict(text="For each command and each selectable upstream codec the real EncodeDnsRequestWithParams output (symbolic field values and payload bytes) is checked to be one valid question (labels<=63, name<=253), sent through miekg's real Msg.Pack and Msg.Unpack, and decoded by the real ComposeRequest/DecodeDnsRequest; field-by-field equality is the assertion, payload lengths up to the real getUpstreamMtu.",
              note="Number of simultaneously symbolic bytes is small (2-7 depending on codec), the remaining payload is concrete filler; multi-query mode (never set by the client) is outside."),
+ "C10": dict(text="Each response kind with symbolic field values (and every error code) is encoded by the real EncodeDnsResponseWithParams into answer records of each of the eight record types with each downstream codec, packed and unpacked by miekg's real Msg.Pack/Msg.Unpack, optionally reordered, and decoded by the real DecodeDnsResponseWithParams; the assertion is field-by-field equality unless one of the four steps returned an error (for NULL/PRIVATE/TXT an error is a violation as well).",
+             note="Few bytes are symbolic at once (header fields + 1-2 payload bytes), the rest of the payload is concrete filler at each listed length; lengths between the listed ones above 320 are outside; Raw only with NULL/PRIVATE/TXT; Base192 left to C08's known finding; A/AAAA/SRV/MX/CNAME failures that are reported by Pack or the encoder are accepted as 'reported'."),
  "C12": dict(text="Server: one-question messages in wire format with every byte value in the first label (length 0..2, tunnel and foreign domain, every qtype/qclass) and command templates with symbolic command letter, user-id characters and bodies go through miekg's real Msg.Unpack and the real onMessage; every Go run-time panic site, every allocation size and every loop bound is an assertion, and an established session of another address must stay unchanged. Client: answer sections of 0..2 records of each record type with arbitrary rdata go through Msg.Unpack and the real DecodeDnsResponseWithParams.",
              note="Bounds in evidence.coverage.bounds; names with more than 2 unconstrained bytes only through templates; compression pointers inside rdata of name-carrying answers are left out; one handler at a time."),
  "C13": dict(text="All histories of k operations (handshakes from two addresses, data packets, client closes, server-side closes of any session object, time advances with a run of the real pruning goroutine) on the real ServerDnsListener from the empty table, plus all two-slot tables x one pruning run, plus one spoofed message of every id-carrying command with fully symbolic sequence numbers against a live session; a ghost model says which sessions must still be live.",
